@@ -136,6 +136,7 @@ class Canon:
                     if n.get("k") == "Block" and n is not body:
                         self.inline_block(n, f)
                 self.inline_exprs(body, f)
+            self.beta_reduce(body)
             self.assign_forms(body)
             self.match_ints(body)
             self.while_loops(body)
@@ -155,13 +156,14 @@ class Canon:
         base = self.fresh
         self.fresh += 1_000_000
         # rename bindings / node ids
-        pids = {p["v"] for p in params}
+        # every binding of the callee (parameters included) gets a fresh id first: the caller's ids are small per-function
+        # numbers too, and a substituted argument must never be mistaken for a later parameter
+        params = [dict(p, v=p["v"] + base) for p in params]
         for n in _walk(body):
             if n.get("k") in ("Bind",) and isinstance(n.get("v"), int):
                 n["v"] = n["v"] + base
             elif n.get("k") == "Local" and isinstance(n.get("v"), int):
-                if n["v"] not in pids:
-                    n["v"] = n["v"] + base
+                n["v"] = n["v"] + base
             if isinstance(n.get("id"), int):
                 n["id"] = n["id"] + base
         # positions: keep relative order, place at the call's closing parenthesis
@@ -221,9 +223,7 @@ class Canon:
                     if is_recv and uty.startswith("&mut") and not str(u.get("adj", "")).startswith("&mut"):
                         u["adj"] = uty
             else:
-                nv = prm["v"] + base
-                for u in uses:
-                    u["v"] = nv
+                nv = prm["v"]
                 pat = dict(prm)
                 pat["v"] = nv
                 sp0 = [L, C + 0.0001 * (len(prelude) + 1) * eps, L, C + 0.0001 * (len(prelude) + 1) * eps]
@@ -518,6 +518,65 @@ class Canon:
             n["r"] = rhs
             n["canon"] = "x = x op e"
             self.stats["assign_forms"] += 1
+
+    # ------------------------------------------------------------------ P9
+    def beta_reduce(self, body):
+        """`let f = |a, b| e; .. f(x, y) ..`  ->  `.. e[a := x, b := y] ..` for an immutable, expression-bodied closure
+        applied to side-effect-free arguments (what a helper taking `op: impl Fn` becomes once it is inlined)."""
+        lets = {}
+        for n in _walk(body):
+            if n.get("k") == "Let" and n.get("pat", {}).get("k") == "Bind" and not n["pat"].get("mut") and n.get("init") is not None:
+                c = _strip(n["init"])
+                while c.get("k") == "AddrOf":
+                    c = _strip(c["e"])
+                if c.get("k") == "Closure" and all(p_.get("k") == "Bind" and not p_.get("mut") for p_ in c.get("params", [])):
+                    cb = c["body"]
+                    if not (cb.get("k") == "Block" and cb.get("stmts")) and not any(y.get("k") in ("Ret", "Try", "Assign", "AssignOp") for y in _walk(cb)):
+                        lets[n["pat"]["v"]] = (n, c)
+        if not lets:
+            return
+        used = {}
+        for n in list(_walk(body)):
+            if n.get("k") != "Call":
+                continue
+            f = _strip(n["f"])
+            while f.get("k") in ("AddrOf",) or (f.get("k") == "Unary" and f.get("op") == "*"):
+                f = _strip(f["e"])
+            if f.get("k") != "Local" or f.get("v") not in lets:
+                continue
+            letn, c = lets[f["v"]]
+            args = n.get("args", [])
+            if len(args) != len(c["params"]) or not all(self._pure(a) for a in args):
+                continue
+            e = copy.deepcopy(_strip(c["body"]))
+            base = self.fresh
+            self.fresh += 100000
+            for x in _walk(e):
+                if isinstance(x.get("id"), int):
+                    x["id"] += base
+            sp = n.get("sp")
+            for prm, a in zip(c["params"], args):
+                for u in [x for x in _walk(e) if x.get("k") == "Local" and x.get("v") == prm["v"]]:
+                    cp = copy.deepcopy(a)
+                    u.clear()
+                    u.update(cp)
+            if sp:
+                for x in _walk(e):
+                    x["sp"] = list(sp)
+            keep = n.get("adj")
+            n.clear()
+            n.update(e)
+            if keep and not n.get("adj"):
+                n["adj"] = keep
+            used[f["v"]] = True
+            self.stats["beta"] = self.stats.get("beta", 0) + 1
+        # closures all of whose uses were applications are dropped
+        for v, (letn, c) in lets.items():
+            if used.get(v) and not any(x.get("k") == "Local" and x.get("v") == v for x in _walk(body)):
+                letn["canon_dead"] = True
+        for blk in [n for n in _walk(body) if n.get("k") == "Block"]:
+            if any(s_.get("canon_dead") for s_ in blk.get("stmts", [])):
+                blk["stmts"] = [s_ for s_ in blk["stmts"] if not s_.get("canon_dead")]
 
     # ------------------------------------------------------------------ P8
     def match_ints(self, body):
